@@ -46,7 +46,6 @@ from ..engine.runner import BaseCheck, ShardResult
 from ..engine.loader import load_source
 from ..engine import progen_c08 as G
 
-import fpy2 as fp
 from fpy2 import strategies as S
 from fpy2.number import Float, RealFloat, same_value
 from fpy2.transform import ForUnrollStrategy, SplitLoopStrategy
